@@ -127,7 +127,8 @@ SemArg(kind, a) ==
     [] kind = "amt" -> [k |-> "amt", q |-> a.q]
     [] kind = "pay" -> IF HasE(a) THEN [k |-> "pay", e |-> a.e] ELSE [k |-> "raw", h |-> a.h]
     [] OTHER -> [k |-> "raw", h |-> a.h]
-SemMsg(m) == [m EXCEPT !.args = [i \in 1..Len(m.args) |-> SemArg(KindAt(m.fn, m.args, i), m.args[i])]]
+ClampGas(g) == IF g >= 500000000 THEN HugeGas ELSE g
+SemMsg(m) == [m EXCEPT !.gas = ClampGas(@), !.gl = ClampGas(@), !.args = [i \in 1..Len(m.args) |-> SemArg(KindAt(m.fn, m.args, i), m.args[i])]]
 SemMsgs(ms) == [i \in 1..Len(ms) |-> SemMsg(ms[i])]
 SemWorld(w) == [w EXCEPT !.msgs = SemMsgs(w.msgs)]
 
